@@ -111,6 +111,16 @@ def h2(ctx, fx, H):
             else:
                 ctx.finding("C06.H2", fn, "result-write:%s" % t.get("name"), "unexpected write to the selection result", line=line)
     ctx.floor("C06.H2", "writes to selection results", npush, 8)
+    nloops = 0
+    for fn in H.sel_fns:
+        ee = common.loop_early_exits(fn)
+        nloops += len(common.next_loops(fn))
+        if ee:
+            lp, e = ee[0]
+            ctx.finding("C06.H2", fn, "walk-complete", "a selection walk can be abandoned early with Ok (break / early return at line %s): disclosures of later selected claims are silently omitted" % e["line"], line=fn.term(lp.bb).get("line"))
+        else:
+            ctx.ok("C06.H2", fn, "walk-complete", "every iteration of the selection walk goes back to the loop header or leaves through an Err")
+    ctx.floor("C06.H2", "selection loops", nloops, 2)
     # the presentation's disclosure list
     P = H.present
     pv = vals(P)
